@@ -478,6 +478,12 @@ func (w *responseWriter) WriteMsg(m *dns.Msg) error {
 			}
 			return w.ResponseWriter.WriteMsg(filtered)
 		}
+		if stripped > 0 {
+			// filtered is a copy with records removed; if synthesis
+			// falls back below it is written as-is, so it must not
+			// keep the AD bit of the message it no longer equals.
+			filtered.AuthenticatedData = false
+		}
 		m = filtered
 	}
 
